@@ -84,6 +84,84 @@ def marshalTPs : List RawTP → Res Bytes
     | .ok i, .ok l, .ok r => .ok (i ++ l ++ tp.value ++ r)
     | _, _, _ => .panic
 
+/-! ## Destination slices: `append` into spare capacity
+
+`Append`/`AppendWithLen` take a destination `b []byte`. What the caller sees of `b` is `b[0:len]`;
+the backing array may extend beyond it (`cap(b) > len(b)`) and hold whatever an earlier user left
+there (a scratch buffer reset with `b = b[:0]`). The functions below transcribe the Go code at that
+level: every Go `append` either writes into the spare capacity or moves to a fresh, zeroed array
+whose extra capacity is the runtime's choice (`grow`). `C24.append_ignores_capacity` shows the
+visible result never depends on either. -/
+
+/-- a Go `[]byte` as `append` sees it: `data = b[0:len]`, `spare = b[len:cap]`. -/
+structure Slice where
+  data : Bytes
+  spare : Bytes
+  deriving DecidableEq, Repr
+
+/-- the nil slice (`var b []byte`). -/
+def Slice.nil : Slice := ⟨[], []⟩
+
+/-- Go `append(s, bs...)`. -/
+def goAppend (grow : Nat → Nat) (s : Slice) (bs : Bytes) : Slice :=
+  if bs.length ≤ s.spare.length then ⟨s.data ++ bs, s.spare.drop bs.length⟩
+  else ⟨s.data ++ bs, List.replicate (grow (s.data.length + bs.length)) 0⟩
+
+/-- a loop of single-byte appends `b = append(b, c)`. -/
+def appendEach (grow : Nat → Nat) (s : Slice) : Bytes → Slice
+  | [] => s
+  | c :: cs => appendEach grow (goAppend grow s [c]) cs
+
+/-- `quicvarint.Append(b, x)`: one `append` of the whole encoding. -/
+def sAppend (grow : Nat → Nat) (s : Slice) (x : Nat) : Res Slice :=
+  match vAppend x with
+  | .ok bs => .ok (goAppend grow s bs)
+  | .panic => .panic
+
+/-- `quicvarint.AppendWithLen(b, x, w)`: prefix byte, `w-l-1` zero bytes, `l` value bytes, each
+appended on its own. -/
+def sAppendWithLen (grow : Nat → Nat) (s : Slice) (x w : Nat) : Res Slice :=
+  if w ≠ 1 ∧ w ≠ 2 ∧ w ≠ 4 ∧ w ≠ 8 then .panic else
+  match vLen x with
+  | .panic => .panic
+  | .ok l =>
+    if l = w then sAppend grow s x
+    else if l > w then .panic
+    else
+      let s1 := if w = 2 then goAppend grow s [b 64] else if w = 4 then goAppend grow s [b 128]
+                else if w = 8 then goAppend grow s [b 192] else s
+      let s2 := appendEach grow s1 (List.replicate (w - l - 1) (b 0))
+      .ok (appendEach grow s2 (beBytes x l))
+
+/-- what the caller sees of a result. -/
+def viewOf : Res Slice → Res Bytes
+  | .ok s => .ok s.data
+  | .panic => .panic
+
+/-- `pre ++ ·` under `Res`. -/
+def prefixed (pre : Bytes) : Res Bytes → Res Bytes
+  | .ok bs => .ok (pre ++ bs)
+  | .panic => .panic
+
+/-- `TransportParameters.Marshal` at slice level, from the destination `s` (`var b []byte` = `Slice.nil`). -/
+def sMarshal (grow : Nat → Nat) : Slice → List RawTP → Res Slice
+  | s, [] => .ok s
+  | s, tp :: rest =>
+    match sAppend grow s tp.id with
+    | .panic => .panic
+    | .ok s1 =>
+      match sAppend grow s1 tp.value.length with
+      | .panic => .panic
+      | .ok s2 => sMarshal grow (goAppend grow s2 tp.value) rest
+
+/-- several lists marshalled one after the other, every result kept by the caller. -/
+def marshalSeq : List (List RawTP) → Res (List Bytes)
+  | [] => .ok []
+  | l :: ls =>
+    match marshalTPs l, marshalSeq ls with
+    | .ok bs, .ok rest => .ok (bs :: rest)
+    | _, _ => .panic
+
 /-- independent parser of the RFC 9000 §18 grammar: a sequence of (varint id, varint length, value). -/
 def parseTPsFuel : Nat → Bytes → Option (List RawTP)
   | _, [] => some []
